@@ -32,8 +32,14 @@ func MakeFromRequest(r *http.Request) CacheKey {
 		scheme = "https"
 	}
 	normHost := strings.ToLower(r.Host)
+	// path.Clean drops a trailing slash, but /dir/ and /dir are different resources
 	normPath := path.Clean(r.URL.Path)
-	stringKey := fmt.Sprintf("%s|%s|%s|%s|%s", scheme, r.Method, normHost, normPath, r.URL.RawQuery)
+	if strings.HasSuffix(r.URL.Path, "/") && normPath != "/" {
+		normPath += "/"
+	}
+	// Every component is quoted: a separator inside a component (a '|' in the path or in
+	// the query) must not make two different requests look alike
+	stringKey := fmt.Sprintf("%q|%q|%q|%q|%q", scheme, r.Method, normHost, normPath, r.URL.RawQuery)
 	slog.Debug("Creating cache key", "key", stringKey)
 	return FromString(stringKey)
 }
